@@ -3,7 +3,7 @@
    lies in one epoch block K (10^8 slots = 10^9 s counted from year 1), is non-empty, and carries a
    non-negative per-slot amount ([valid_write K]). *)
 From Pyro Require Import Model.Base Model.Float53 Model.Segment
-  Proofs.SegmentProofs Proofs.SegStruct Proofs.SegGet.
+  Proofs.SegmentProofs Proofs.SegStruct Proofs.SegGet Proofs.SegStore Proofs.SegInv Proofs.SegRead Proofs.SegMax Proofs.SegCanon Proofs.SegCanon18.
 Local Open Scope Z_scope.
 
 (* the five-way classification is the set-theoretic relation between node and range *)
@@ -42,16 +42,128 @@ Theorem C03_cover_disjoint_present : forall K ws a b, Forall (valid_write K) ws 
 Proof. exact get_sound. Qed.
 Print Assumptions C03_cover_disjoint_present.
 
+(* The exact store: [run_writes ws] applies every put callback to a store of integers,
+   store[k] += m * beta + sum of store[addons], beta = per-slot amount of the write (profile = span * beta).
+   [read_sum E (s_get a b s)] is what a reader assembles from the buckets get names.
+   [WR ws a b] = sum over the writes of (slots of the write inside [a,b)) * beta. *)
+
+(* no invented samples: for every history of writes of any span and every aligned range, what is
+   returned is at most what was ingested into the range (any non-negative amounts, hence per stack) *)
+Theorem C03_no_more : forall K ws a b, Forall (valid_write K) ws -> a < b ->
+  read_sum (snd (run_writes ws)) (s_get a b (fst (run_writes ws))) <= WR ws a b.
+Proof. exact no_more. Qed.
+Print Assumptions C03_no_more.
+
+(* ... and per write: tag write k with one unit per slot and every other write with none *)
+Theorem C03_no_more_per_write : forall K ws k w a b,
+  Forall (in_block_w K) ws -> nth_error ws k = Some w -> a < b ->
+  read_sum (snd (run_writes (tag k ws))) (s_get a b (fst (run_writes ws))) <= ov (w_a w) (w_b w) a b.
+Proof. exact no_more_per_write. Qed.
+Print Assumptions C03_no_more_per_write.
+
+(* nothing lost at full zoom-out: a range covering all writes returns every write entirely *)
+Theorem C03_total : forall K ws a b, Forall (valid_write K) ws -> a < b ->
+  Forall (fun w => a <= w_a w /\ w_b w <= b) ws ->
+  read_sum (snd (run_writes ws)) (s_get a b (fst (run_writes ws))) =
+  sumZ (map (fun w => (w_b w - w_a w) * w_beta w) ws).
+Proof. exact total. Qed.
+Print Assumptions C03_total.
+
+Theorem C03_total_per_write : forall K ws k w a b,
+  Forall (in_block_w K) ws -> nth_error ws k = Some w -> a < b ->
+  Forall (fun w => a <= w_a w /\ w_b w <= b) ws ->
+  read_sum (snd (run_writes (tag k ws))) (s_get a b (fst (run_writes ws))) = w_b w - w_a w.
+Proof. exact total_per_write. Qed.
+Print Assumptions C03_total_per_write.
+
+(* splitting a range in two never yields more than querying it whole *)
+Theorem C03_split : forall K ws s m e, Forall (valid_write K) ws -> s < m -> m < e ->
+  read_sum (snd (run_writes ws)) (s_get s m (fst (run_writes ws))) +
+  read_sum (snd (run_writes ws)) (s_get m e (fst (run_writes ws))) <=
+  read_sum (snd (run_writes ws)) (s_get s e (fst (run_writes ws))).
+Proof. exact split. Qed.
+Print Assumptions C03_split.
+
+(* get is answered from the largest pre-aggregated buckets that fit: no bucket it names lies strictly
+   below a present bucket that itself fits in the range *)
+Theorem C03_maximal : forall K ws a b, Forall (valid_write K) ws -> a < b ->
+  let s := fst (run_writes ws) in
+  forall c k, In c (s_get a b s) -> In k (s_pkeys s) -> fits a b k -> ~ sbelow (gc_key c) k.
+Proof. exact maximal. Qed.
+Print Assumptions C03_maximal.
+
+(* sub-range answers are exact (not only bounded) when no write contains an aligned 100 s bucket *)
+Theorem C03_exact_short_writes : forall K ws a b, Forall (valid_write K) ws -> a < b ->
+  Forall (fun w => w_b w - w_a w < 10) ws ->
+  read_sum (snd (run_writes ws)) (s_get a b (fst (run_writes ws))) =
+    sumZ (map (fun w => w_beta w * ov (w_a w) (w_b w) a b) ws) /\
+  Forall (fun c => gc_m c = 1 /\ gc_d c = 1) (s_get a b (fst (run_writes ws))).
+Proof. exact seg_read_exact. Qed.
+Print Assumptions C03_exact_short_writes.
+
+(* C03_canonical, full statement (NOT proved as such, and false without a restriction on spans):
+     for a window in which every slot was written, the cover of any aligned sub-range is the canonical
+     decomposition into aligned power-of-ten buckets [s_canon], with at most 18 buckets per level.
+   Proved: [C03_canonical_partial] — the same with the added hypothesis that every write spans fewer
+   than 10 slots (no write contains an aligned bucket of level >= 1); it only needs the slots of the
+   queried range itself to have been written.  [C03_canonical_refuted] — a machine-checked witness that
+   the statement fails when a write contains an aligned 1000 s bucket and a later one-slot write creates
+   a 100 s bucket below it (that bucket is not pre-aggregated: the cover is the single slot).
+   [C03_canonical_size] — the canonical decomposition has at most 18 buckets of every level (at most one
+   at the level of the root bucket), so under the hypotheses of [C03_canonical_partial] so has the cover. *)
+Theorem C03_canonical_partial : forall K ws a b,
+  Forall (valid_write K) ws -> Forall (fun w => w_b w - w_a w < 10) ws -> a < b ->
+  (forall x, a <= x < b -> exists w, In w ws /\ w_a w <= x < w_b w) ->
+  match s_root (fst (run_writes ws)) with
+  | Some (lvl, n) => map gc_key (s_get a b (fst (run_writes ws))) = s_canon lvl (sn_time n) a b
+  | None => True
+  end.
+Proof. exact canonical. Qed.
+Print Assumptions C03_canonical_partial.
+
+Theorem C03_canonical_size : forall lvl t a b j, a < b -> (cnt j (s_canon lvl t a b) <= 18)%nat.
+Proof. exact canon_at_most_18. Qed.
+Print Assumptions C03_canonical_size.
+
+Theorem C03_canonical_refuted :
+  Forall (valid_write 63) canon_cex /\
+  (forall x, 6321559610 <= x < 6321559620 -> exists w, In w canon_cex /\ w_a w <= x < w_b w) /\
+  s_root (fst (run_writes canon_cex)) <> None /\
+  match s_root (fst (run_writes canon_cex)) with
+  | Some (lvl, n) => map gc_key (s_get 6321559610 6321559620 (fst (run_writes canon_cex)))
+                     <> s_canon lvl (sn_time n) 6321559610 6321559620
+  | None => True
+  end.
+Proof. exact canonical_refuted. Qed.
+Print Assumptions C03_canonical_refuted.
+
 (* a concrete non-trivial history satisfying the hypotheses: a 25-slot write across a 100-slot
-   boundary followed by a single-slot write, queried on a range that cuts present buckets *)
+   boundary followed by a single-slot write, queried on a range that cuts present buckets; and a
+   history with a write that contains an aligned 1000 s bucket, where a sub-range answer is strictly
+   below what was written (approximate) while the whole is exact *)
 Definition ex_ws : list write :=
   [ {| w_a := 6321559690; w_b := 6321559715; w_smp := 100%N; w_beta := 2 |};
     {| w_a := 6321559688; w_b := 6321559689; w_smp := 7%N; w_beta := 1 |} ].
+Definition ex_ws2 : list write :=
+  [ {| w_a := 6321559600; w_b := 6321559700; w_smp := 100%N; w_beta := 2 |};
+    {| w_a := 6321559613; w_b := 6321559614; w_smp := 7%N; w_beta := 1 |} ].
 Example C03_nonvacuous :
-  Forall (valid_write 63) ex_ws /\
-  length (s_get 6321559685 6321559712 (fst (run_writes ex_ws))) = 5%nat.
+  Forall (valid_write 63) ex_ws /\ Forall (in_block_w 63) ex_ws /\ Forall (valid_write 63) ex_ws2 /\
+  length (s_get 6321559685 6321559712 (fst (run_writes ex_ws))) = 5%nat /\
+  read_sum (snd (run_writes ex_ws)) (s_get 6321559685 6321559712 (fst (run_writes ex_ws))) = 45 /\
+  WR ex_ws 6321559685 6321559712 = 45 /\
+  read_sum (snd (run_writes ex_ws2)) (s_get 6321559610 6321559620 (fst (run_writes ex_ws2))) = 1 /\
+  WR ex_ws2 6321559610 6321559620 = 21 /\
+  read_sum (snd (run_writes ex_ws2)) (s_get 6321559600 6321559700 (fst (run_writes ex_ws2))) = 201.
 Proof.
-  split.
+  split; [|split; [|split; [|split; [|split; [|split; [|split; [|split]]]]]]].
   - repeat constructor; cbn; unfold pow10; cbn; lia.
+  - repeat constructor; cbn; unfold pow10; cbn; lia.
+  - repeat constructor; cbn; unfold pow10; cbn; lia.
+  - vm_compute. reflexivity.
+  - vm_compute. reflexivity.
+  - vm_compute. reflexivity.
+  - vm_compute. reflexivity.
+  - vm_compute. reflexivity.
   - vm_compute. reflexivity.
 Qed.
